@@ -51,6 +51,9 @@ Candidates ==
     \* a client writes into / deletes from a map it was handed (plain Go map statements on existing maps)
     \cup UNION {{St("hset", q, Leaf(5), h) : q \in {r \in Paths : LookupOk(hd[h].t, r)}} : h \in LiveH}
     \cup UNION {{St("hdel", e.p, NoVal, h) : e \in hd[h].t} : h \in LiveH}
+    \* NOT part of the contract (never replayed): the caller of OverwriteData keeps the map it passed in
+    \* as handle h.  Only used by SyncHeap to show what "adopts its argument" means (HeapLent.cfg).
+    \cup {St("overk", <<>>, x, h) : x \in MapValues, h \in NewH}
     \cup {St("fset", <<k>>, Leaf(n), 0) : k \in Keys, n \in {1, 2}}
     \cup {St("fget", <<k>>, NoVal, 0) : k \in Keys}
 
@@ -66,9 +69,10 @@ Do(o) ==
             /\ hd' = IF o.h # 0 /\ r.res.st = "ok" /\ r.res.v = MAP /\ o.op \in {"get", "data"}
                      THEN [hd EXCEPT ![o.h] = [live |-> TRUE, t |-> r.res.sub]] ELSE hd
             /\ flat' = flat
-       ELSE /\ t' = t
+       ELSE /\ t' = IF o.op = "overk" THEN o.val.sub ELSE t
             /\ hd' = CASE o.op = "hset" -> [hd EXCEPT ![o.h].t = SetT(@, o.p, o.val)]
                        [] o.op = "hdel" -> [hd EXCEPT ![o.h].t = DelT(@, o.p)]
+                       [] o.op = "overk" -> [hd EXCEPT ![o.h] = [live |-> TRUE, t |-> o.val.sub]]
                        [] OTHER -> hd
             /\ flat' = IF o.op = "fset" THEN FlatSet(flat, o.p[1], o.val.v) ELSE flat
     /\ hist' = Append(hist, o)
